@@ -339,7 +339,7 @@ func judge(c *core.Ctx, n int) (map[string]any, error) {
 	canaryRejected := false
 	nb := 4 * c.Workers
 	nsel, nstrm, npat := bounds(c)
-	cfgText := strings.Replace(cfg(c, []string{"judge"}, nsel, nstrm, npat), "INIT Init\nNEXT Next\nINVARIANT Emit", fmt.Sprintf(" NB = %d\nINIT JInit\nNEXT JNext\nINVARIANT Judge", nb), 1)
+	cfgText := strings.Replace(cfg(c, []string{"judge"}, nsel, nstrm, npat), "INIT Init\nNEXT Next\nINVARIANT Emit", fmt.Sprintf(" NB = %d\n C10Dev = %s\nINIT JInit\nNEXT JNext\nINVARIANT Judge", nb, core.TLASet(ownOpen(c))), 1)
 	var mu sync.Mutex
 	var rejected, known, skipped int64
 	res, err := tlc.Run(tlc.Opts{SpecDir: c.SpecDir, Module: "C10Judge", Cfg: cfgText, Workers: c.Workers,
